@@ -393,7 +393,9 @@ pub fn run(tier: Tier) -> i32 {
     let evals = AtomicU64::new(0);
     let inputs = AtomicU64::new(0);
     // silence the default panic hook: decode panics are findings, not noise
-    std::panic::set_hook(Box::new(|_| {}));
+    if std::env::var("VERIF_LOUD").is_err() {
+        std::panic::set_hook(Box::new(|_| {}));
+    }
 
     // (a) all byte strings of length <= 3, every fragmentation, max_size in {0, 2}
     let total: u64 = 1 + 256 + 65536 + 16_777_216;
